@@ -431,6 +431,17 @@ func ruleWalkTotal(p *Prog, r *Report, specs []walkerSpec) {
 				listWhy = why
 			}
 		}
+		// the loops themselves are reached whenever the node has the arm's type
+		for _, a := range mapArms {
+			if why := p.armReachesLoop(fn, node, a.hdr, true, sp.SkipVars); why != "" && mapWhy == "" {
+				mapOK, mapWhy = "", why
+			}
+		}
+		for _, a := range listArms {
+			if why := p.armReachesLoop(fn, node, a.hdr, false, sp.SkipVars); why != "" && listWhy == "" {
+				listOK, listWhy = "", why
+			}
+		}
 		if mapOK != "" {
 			r.OK(rule, sp.Fn, "every map entry visited", mapOK, "recursive call on the entry value, unconditional in the body of a range over the node's map")
 		} else {
@@ -448,6 +459,86 @@ func ruleWalkTotal(p *Prog, r *Report, specs []walkerSpec) {
 			r.Bad(rule, sp.Fn, "every list member visited", p.Pos(fn.Pos()), listWhy)
 		}
 	}
+}
+
+// armReachesLoop: once the node is known to have the arm's type (the true edge of the comma-ok test that dominates the loop),
+// no path leaves the function without entering the loop over its members, except under a condition on the allowed skip
+// variables or on the emptiness of the node.
+func (p *Prog) armReachesLoop(fn *ssa.Function, node ssa.Value, hdr *ssa.BasicBlock, wantMap bool, allowed []string) string {
+	cz := p.canonFor(fn)
+	var entry *ssa.BasicBlock
+	for _, ref := range *node.Referrers() {
+		ta, ok := ref.(*ssa.TypeAssert)
+		if !ok || !ta.CommaOk {
+			continue
+		}
+		if wantMap != isMapShaped(ta.AssertedType) {
+			continue
+		}
+		if _, isSl := ta.AssertedType.Underlying().(*types.Slice); !wantMap && !isSl {
+			continue
+		}
+		for _, r2 := range *ta.Referrers() {
+			ex, ok := r2.(*ssa.Extract)
+			if !ok || ex.Index != 1 {
+				continue
+			}
+			for _, r3 := range *ex.Referrers() {
+				ifi, ok := r3.(*ssa.If)
+				if !ok {
+					continue
+				}
+				if edgeDominates(ifi.Block(), 0, hdr) {
+					entry = ifi.Block().Succs[0]
+				}
+			}
+		}
+	}
+	if entry == nil || entry == hdr {
+		return "" // arm not entered through a comma-ok test on the node: nothing to decide here
+	}
+	seen := map[*ssa.BasicBlock]bool{entry: true}
+	work := []*ssa.BasicBlock{entry}
+	for len(work) > 0 {
+		b := work[len(work)-1]
+		work = work[:len(work)-1]
+		if len(b.Instrs) == 0 {
+			continue
+		}
+		last := b.Instrs[len(b.Instrs)-1]
+		if _, isRet := last.(*ssa.Return); isRet {
+			return "the function can return at " + p.Pos(firstPos(b)) + " without ranging over the node's members: they are not visited"
+		}
+		skip := -1
+		if ifi, ok := last.(*ssa.If); ok {
+			cs := cz.of(ifi.Cond)
+			for _, a := range allowed {
+				if strings.Contains(cs, a) {
+					skip = 2
+				}
+			}
+			if bo, ok := ifi.Cond.(*ssa.BinOp); ok {
+				if c, ok := bo.X.(*ssa.Call); ok && isBuiltin(c, "len") && assertOf(c.Call.Args[0], node) {
+					if k, isK := constInt(bo.Y); isK {
+						switch {
+						case bo.Op == token.EQL && k == 0, bo.Op == token.LSS && k == 1, bo.Op == token.LEQ && k == 0:
+							skip = 0
+						case bo.Op == token.NEQ && k == 0, bo.Op == token.GTR && k == 0, bo.Op == token.GEQ && k == 1:
+							skip = 1
+						}
+					}
+				}
+			}
+		}
+		for si, s := range b.Succs {
+			if s == hdr || seen[s] || skip == 2 || skip == si {
+				continue
+			}
+			seen[s] = true
+			work = append(work, s)
+		}
+	}
+	return ""
 }
 
 // assertOf: v is node.(T) (comma-ok value or plain assertion) of the node parameter.
@@ -856,6 +947,12 @@ func rulePairUpdate(p *Prog, r *Report) {
 			} else {
 				r.Bad(rule, n, construct+": key", p.Pos(x.Pos()), "an entry other than the one named by the new value's key is written ("+cz.of(x.Key)+")")
 			}
+			// an entry exists under the written key: the update replaces values, it never creates entries
+			if why := entryPresent(x); why != "" {
+				r.OK(rule, n, construct+": replaces an existing entry", p.Pos(x.Pos()), why)
+			} else {
+				r.Bad(rule, n, construct+": replaces an existing entry", p.Pos(x.Pos()), "the entry is written without a dominating test that the node has the key (a comma-ok lookup, or a successful type test of the looked-up value): where the key is absent an entry is created and counted as a replacement")
+			}
 			// value
 			if x.Value == ssa.Value(valP) {
 				events[x.Block()]++
@@ -875,6 +972,30 @@ func rulePairUpdate(p *Prog, r *Report) {
 					testedNodes = append(testedNodes, cz.of(nodeRoot(c.Call.Args[0])))
 					if nodeRoot(c.Call.Args[0]) == nodeRoot(x.Map) {
 						tested = true
+					}
+				}
+				// the node written is one the path addresses: when the update key is not the path's last segment, the node is reached
+				// through that segment (m[keys0], or a member of the list found there) — not the node the last segment is looked up in
+				if x.Key == ssa.Value(keyP) {
+					underEq := false
+					for _, g := range dominatingGuards(x.Block()) {
+						ng := normGuard(g)
+						if bo, ok := ng.Cond.(*ssa.BinOp); ok && (bo.Op == token.EQL || bo.Op == token.NEQ) && (bo.Op == token.EQL) == ng.Pol {
+							if (bo.X == ssa.Value(keyP) && bo.Y == ssa.Value(keys0P)) || (bo.Y == ssa.Value(keyP) && bo.X == ssa.Value(keys0P)) {
+								underEq = true
+							}
+						}
+					}
+					viaLast := false
+					for v := range backwardSlice(fn, nodeRoot(x.Map)) {
+						if lk, ok := v.(*ssa.Lookup); ok && lk.Index == ssa.Value(keys0P) {
+							viaLast = true
+						}
+					}
+					if underEq || viaLast {
+						r.OK(rule, n, construct+": node addressed by the path", p.Pos(x.Pos()), "the written node is reached through the last path segment (or the update key is that segment)")
+					} else {
+						r.Bad(rule, n, construct+": node addressed by the path", p.Pos(x.Pos()), "the update key is not known to be the path's last segment here, yet the entry is written in a node that is not reached through that segment: the value is replaced in the node the path passes through, not in the node it addresses")
 					}
 				}
 				if tested {
@@ -945,6 +1066,70 @@ func rulePairUpdate(p *Prog, r *Report) {
 			r.Bad(rule, n, "zero count means no write (list form)", p.Pos(mu.Pos()), "the list entry may be overwritten although nothing was replaced")
 		}
 	}
+}
+
+// entryPresent: the map write is dominated by evidence that the map already has the key: the ok of a comma-ok lookup of the same
+// key in the same node, or a successful comma-ok type assertion of the value looked up there (nil has no dynamic type).
+func entryPresent(mu *ssa.MapUpdate) string {
+	fn := mu.Parent()
+	root := nodeRoot(mu.Map)
+	guards := dominatingGuards(mu.Block())
+	holds := func(v ssa.Value) bool {
+		for _, g := range guards {
+			ng := normGuard(g)
+			if ng.Cond == v && ng.Pol {
+				return true
+			}
+		}
+		return false
+	}
+	why := ""
+	eachInstr(fn, func(b *ssa.BasicBlock, in ssa.Instruction) {
+		lk, ok := in.(*ssa.Lookup)
+		if !ok || lk.Index != mu.Key || nodeRoot(lk.X) != root {
+			return
+		}
+		if _, isMap := lk.X.Type().Underlying().(*types.Map); !isMap {
+			return
+		}
+		var vals []ssa.Value
+		if lk.CommaOk {
+			for _, ref := range *lk.Referrers() {
+				if ex, ok := ref.(*ssa.Extract); ok {
+					if ex.Index == 1 && holds(ex) {
+						why = "dominated by the ok of a comma-ok lookup of the key in the same node"
+					}
+					if ex.Index == 0 {
+						vals = append(vals, ex)
+					}
+				}
+			}
+		} else {
+			vals = append(vals, lk)
+		}
+		for _, v := range vals {
+			for _, ref := range *v.Referrers() {
+				ta, ok := ref.(*ssa.TypeAssert)
+				if !ok || !ta.CommaOk {
+					continue
+				}
+				for _, r2 := range *ta.Referrers() {
+					if ex, ok := r2.(*ssa.Extract); ok && ex.Index == 1 && holds(ex) {
+						why = "dominated by a successful type test of the value stored under the key (an absent key yields nil, which has no type)"
+					}
+				}
+			}
+		}
+	})
+	// the key ranges over the node's own keys
+	if ex, ok := mu.Key.(*ssa.Extract); ok && ex.Index == 1 {
+		if nx, ok := ex.Tuple.(*ssa.Next); ok {
+			if rg, ok := nx.Iter.(*ssa.Range); ok && nodeRoot(rg.X) == root {
+				why = "the key is drawn from a range over the node itself"
+			}
+		}
+	}
+	return why
 }
 
 // nodeRoot strips the assertions and interface conversions between a Map node and the map value the code works with.
@@ -1395,8 +1580,16 @@ func ruleWalkParent(p *Prog, r *Report) {
 				positional = true // len(keys) == 1, or i == len(keys)-1
 			}
 		}
+		exhausted, early := false, ""
+		if !positional {
+			exhausted, early = p.returnedAfterExhaustion(fn, b, lenKeys)
+		}
 		if positional {
 			r.OK(rule, n, "parent returned at the last segment by position", p.Pos(ret.Pos()), "the return is dominated by a comparison involving len(keys)")
+		} else if exhausted {
+			r.OK(rule, n, "parent returned at the last segment by position", p.Pos(ret.Pos()), "the return is taken only when the loop over all segments ran to its end: every early exit of the loop falsifies the flag that guards the return")
+		} else if early != "" {
+			r.Bad(rule, n, "parent returned at the last segment by position", p.Pos(ret.Pos()), "the loop over the path segments can be left early at "+early+" with the success flag still set: the map reached so far is returned as the parent although the walk did not reach the last segment (a value on the way is not a map)")
 		} else {
 			r.Bad(rule, n, "parent returned at the last segment by position", p.Pos(ret.Pos()), "a parent map is returned without a positional test that only the last segment remains (an earlier segment of the same name would end the walk)")
 		}
@@ -1451,6 +1644,84 @@ func ruleWalkParent(p *Prog, r *Report) {
 			r.OK(rule, n, "every continuing iteration descends", p.Pos(ph.Pos()), "each back edge carries the child of the node walked")
 		}
 	})
+}
+
+// returnedAfterExhaustion: the block returns under a boolean flag (a phi where the exits of the loop over all path segments
+// meet) and on every exit of that loop other than running out of segments the flag is known to have the value that forbids
+// the return. Returns (true, "") when that holds, (false, position) for an early exit that leaves the flag possibly set.
+func (p *Prog) returnedAfterExhaustion(fn *ssa.Function, rb *ssa.BasicBlock, lenKeys string) (bool, string) {
+	cz := p.canonFor(fn)
+	var hdr *ssa.BasicBlock
+	exitIdx := -1
+	for _, blk := range fn.Blocks {
+		if len(blk.Instrs) == 0 {
+			continue
+		}
+		ifi, ok := blk.Instrs[len(blk.Instrs)-1].(*ssa.If)
+		if !ok || !strings.Contains(cz.of(ifi.Cond), lenKeys) {
+			continue
+		}
+		isHeader := false
+		for _, pr := range blk.Preds {
+			if blk.Dominates(pr) {
+				isHeader = true
+			}
+		}
+		if !isHeader {
+			continue
+		}
+		body := naturalLoop(blk)
+		for si, sc := range blk.Succs {
+			if !body[sc] {
+				hdr, exitIdx = blk, si
+			}
+		}
+	}
+	if hdr == nil {
+		return false, ""
+	}
+	early := ""
+	for _, g := range dominatingGuards(rb) {
+		ng := normGuard(g)
+		ph, ok := ng.Cond.(*ssa.Phi)
+		if !ok {
+			continue
+		}
+		j := ph.Block()
+		allOK := true
+		for i, pb := range j.Preds {
+			v := ph.Edges[i]
+			can := true
+			if c, isC := v.(*ssa.Const); isC && c.Value != nil {
+				can = (c.Value.String() == "true") == ng.Pol
+			} else {
+				gs := dominatingGuards(pb)
+				if len(pb.Instrs) > 0 {
+					if ifi, isIf := pb.Instrs[len(pb.Instrs)-1].(*ssa.If); isIf {
+						for si, sc := range pb.Succs {
+							if sc == j {
+								gs = append(gs, guard{ifi.Cond, si == 0})
+							}
+						}
+					}
+				}
+				for _, g2 := range gs {
+					n2 := normGuard(g2)
+					if n2.Cond == v && n2.Pol != ng.Pol {
+						can = false
+					}
+				}
+			}
+			if can && !(pb == hdr || edgeDominates(hdr, exitIdx, pb)) {
+				allOK = false
+				early = p.Pos(firstPos(pb))
+			}
+		}
+		if allOK {
+			return true, ""
+		}
+	}
+	return false, early
 }
 
 // ruleWalkCollect: values are collected only from direct children of the node under inspection: the functions that append
